@@ -208,3 +208,56 @@ Proof.
     + left. right; right; left. exists j'. rewrite upd_other by exact NJ. rewrite H4, H5, H6. tauto.
   - left. right; right; right. rewrite H7, H8, H9. exact H.
 Qed.
+
+Lemma raw_post_OF : forall s j, OF s (raw_post s j).
+Proof.
+  intros s j. unfold raw_post.
+  match goal with |- context [let '(k1, _) := ?X in _] => assert (K : KO (kern s) (fst X)); [|destruct X as [k1 x]] end.
+  { destruct (efd_raw _ =? 0); apply KO_write. }
+  cbn [fst] in K. apply OF_kern. exact K.
+Qed.
+
+(* ---------- the kick descriptor ---------- *)
+Lemma event_rx_on_O : forall s, OD s -> 0 <= active_ref s -> ARes OD (fst (event_rx_on s)).
+Proof.
+  intros s D NN. unfold event_rx_on.
+  set (P := fun s1 => exists N, KOn N (kern s) (kern s1) /\
+      (epfd s1, tfd s1, rw_reg s1, rw_rfd s1, rw_wfd s1) = (epfd s, tfd s, rw_reg s, rw_rfd s, rw_wfd s) /\
+      active_ref s1 = active_ref s /\
+      ((active_ref s <> 0 /\ N = [] /\ active_fd s1 = active_fd s /\ active_wr s1 = active_wr s) \/
+       (active_ref s = 0 /\ forall x, In x N -> x = active_fd s1 \/ x = active_wr s1))).
+  match goal with |- context [match ?X with R _ => _ | Halt _ => _ end] =>
+    assert (Q : ARes P X); [|destruct X as [s1|s1]] end.
+  { destruct (Z.eqb_spec (active_ref s) 0) as [Z0|NZ].
+    2:{ cbn [ARes]. exists []. split; [apply KO_refl|]. split; [reflexivity|]. split; [reflexivity|]. left. tauto. }
+    pose proof (grab_KOn (kern s) (efd_epoll s)) as K.
+    destruct (eventfd_grab (kern s) (efd_epoll s)) as [[k1 [fd|e]] u]; cbn [fst snd] in K.
+    - pose proof (KO_write k1 fd 8 1) as K2. destruct (k_write k1 fd 8 1) as [k2 x]. cbn [fst] in K2. cbn [ARes].
+      exists [fd]. split; [eapply KOn_r; eassumption|]. split; [reflexivity|]. split; [reflexivity|]. right. split; [exact Z0|].
+      intros x [<-|[]]. left. reflexivity.
+    - cbv zeta. set (s0 := set_efd (set_kern s k1) u (efd_raw s)).
+      pose proof (pipe_KOn (kern s0)) as KP.
+      destruct (k_pipe (kern s0)) as [k2 [[r w]|]]; cbn [fst snd] in KP; [|exact I].
+      pose proof (KO_write k2 w 1 0) as K3. destruct (k_write k2 w 1 0) as [k3 [n|e3]]; cbn [fst] in K3; [|exact I].
+      cbn [ARes]. exists [r; w]. split.
+      + eapply KOn_l; [exact K|]. eapply KOn_r; [exact KP|exact K3].
+      + split; [reflexivity|]. split; [reflexivity|]. right. split; [exact Z0|].
+        intros x [<-|[<-|[]]]; [left|right]; reflexivity. }
+  - cbn [ARes] in Q. destruct Q as (N & K & E & AR & CASE). cbv zeta.
+    set (s2 := set_activefd s1 (active_fd s1) (active_ref s1 + 1)).
+    destruct (ctl_retry s2 CTL_ADD (active_fd s2) 0 (-1)) as [s3 e] eqn:C. apply ctl_retry_OF in C.
+    assert (D3 : OD s3).
+    { destruct C as [KC EC]. unfold owners in EC. inversion EC as [[C1 C2 C3 C4 C5 C6 C7 C8 C9]].
+      inversion E as [[E1 E2 E4 E5 E6]]. cbn [s2 epfd tfd rw_reg rw_rfd rw_wfd active_fd active_wr active_ref set_activefd] in *.
+      apply (OD_step N s); [exact D|eapply KOn_r; [exact K|exact KC]| |].
+      - intros fd _ [H|[H|[(j' & RJ' & H)|H]]]; left; unfold Own.
+        + left. congruence.
+        + right; left. congruence.
+        + right; right; left. exists j'. rewrite C4, C5, C6, E4, E5, E6. tauto.
+        + right; right; right. destruct CASE as [(NZ & _ & A1 & A2)|(Z0 & _)]; [|tauto].
+          rewrite C7, C8, C9, A1, A2, AR. split; [lia|apply H].
+      - intros fd IN. right; right; right. rewrite C7, C8, C9.
+        destruct CASE as [(_ & -> & _)|(Z0 & NW)]; [destruct IN|]. split; [lia|apply NW; exact IN]. }
+    destruct e; cbn [fst ARes]; [exact D3|]. eapply OD_OF; [exact D3|of_plain].
+  - cbn [fst ARes]. exact I.
+Qed.
